@@ -288,7 +288,7 @@ def main(tier, write_baseline=False):
             if bad:
                 fi = {"case": list(case), "what": bad[0][:300]}
                 break
-        run.violation(o["name"], "obligation refuted by %s on path %s" % (o["backend"], " ".join(o["trace"])), failing_input=fi, solver_output={"model": o["model"], "smt2": (o["smt2"] or "")[:3000]})
+        run.violation(o["name"], "obligation refuted by %s on path %s" % (o["backend"], " ".join(o["trace"])), failing_input=common.model_replay("contracts.C19", o) or fi, solver_output={"model": o["model"], "smt2": (o["smt2"] or "")[:3000]})
     for name, ok, detail in rule_obligations():
         if ok is False and not name.startswith("gen_module/"):
             # a shape rule no longer matches.  That alone is not a violation (the code may have been rewritten in an
